@@ -5247,6 +5247,14 @@ class Frame(ContainerOperand):
                 own_columns=own_columns,
                 )
 
+    @staticmethod
+    def _index_labels_1d(index: IndexBase) -> np.ndarray:
+        '''A 1D array of labels; hierarchical labels (2D values) are given as tuples.
+        '''
+        if index.depth == 1:
+            return index.values
+        return index.flat().values #type: ignore
+
     @doc_inject(selector='argminmax')
     def loc_min(self, *,
             skipna: bool = True,
@@ -5269,10 +5277,10 @@ class Frame(ContainerOperand):
         # post has been made immutable so Series will own
         if axis == 0:
             return Series(
-                    self.index.values[post],
+                    self._index_labels_1d(self._index)[post],
                     index=immutable_index_filter(self._columns)
                     )
-        return Series(self.columns.values[post], index=self._index)
+        return Series(self._index_labels_1d(self._columns)[post], index=self._index)
 
     @doc_inject(selector='argminmax')
     def iloc_min(self, *,
@@ -5312,10 +5320,10 @@ class Frame(ContainerOperand):
 
         if axis == 0:
             return Series(
-                    self.index.values[post],
+                    self._index_labels_1d(self._index)[post],
                     index=immutable_index_filter(self._columns)
                     )
-        return Series(self.columns.values[post], index=self._index)
+        return Series(self._index_labels_1d(self._columns)[post], index=self._index)
 
     @doc_inject(selector='argminmax')
     def iloc_max(self, *,
